@@ -598,6 +598,28 @@ func c08Contexts(x, y *term, partner *term) *failure {
 				ctx{"two-exceptions-in-list-other-spelling", func(s string) string { return s }, func(string) []string { return []string{y.text, other} }})
 		}
 	}
+	if (x.plus || x.suffix == "-or-later") && (y.plus || y.suffix == "-or-later") {
+		// the spelling followed by a RUN of two or more '+' (one more '+' is a different reading, DESIGN §6 C08): both texts are
+		// invalid whichever spelling is used — the rewrite of `-or-later` drops exactly one '+', never the run
+		head := func(t *term) (string, string) {
+			if i := strings.Index(t.text, " WITH "); i >= 0 {
+				return t.text[:i], t.text[i:]
+			}
+			return t.text, ""
+		}
+		hx1, tx := head(x)
+		hy1, ty := head(y)
+		for _, run := range []string{"++", "+++"} {
+			for _, wrap := range []string{"%s", "MIT AND (%s OR ISC)"} {
+				ex, ey := fmt.Sprintf(wrap, hx1+run+tx), fmt.Sprintf(wrap, hy1+run+ty)
+				count("ctx_followed_by_plus_run")
+				res.Evaluations++
+				if implValid(ex) != implValid(ey) || (implSat("MIT", []string{"MIT", hx1 + run + tx}).err == nil) != (implSat("MIT", []string{"MIT", hy1 + run + ty}).err == nil) {
+					return &failure{Stream: "oracle", What: "substituting an equivalent spelling in front of a run of '+' changed validity: " + show(ey), Case: &kase{Expr: ex, ExprHex: hx(ex), Allowed: []string{"MIT"}, Extra: map[string]string{"other_expr": ey}}, Impl: fmt.Sprint(implValid(ey)), Expected: fmt.Sprint(implValid(ex))}
+				}
+			}
+		}
+	}
 	for _, c := range ctxs {
 		ex, ey := c.exprOf(x.text), c.exprOf(y.text)
 		lx, ly := c.listOf(x.text), c.listOf(y.text)
